@@ -142,6 +142,12 @@ func (er *entryReaderImpl) watchDags(done chan any) {
 	}()
 	_ = watcher.Add(er.dagsDir)
 
+	// Files created or edited between the initial directory read and the
+	// registration of the watch produced no event: read the directory again.
+	if err := er.initDags(); err != nil {
+		er.logger.Error("DAG initialization failed", "error", err)
+	}
+
 	for {
 		select {
 		case <-done:
